@@ -316,6 +316,7 @@ package raft
 //@   ensures [I11] r.operationManager != nil && r.operationManager.leaderLease != nil && r.operationManager.pendingReplicated != nil && r.operationManager.pendingReadOnly != nil && (forall o *Operation :: o in r.operationManager.pendingReadOnly ==> o != nil)
 //@   ensures [answered-mono] forall c int :: old(answered[c]) ==> answered[c]
 //@   ensures [clock] now >= old(now)
+//@   ensures [snapshot] r.snapshot == nil || r.snapshot == old(r.snapshot)
 //@   ensures [nextIndex] old(forall fid string :: fid in r.followers ==> r.followers[fid].nextIndex <= Llast + 1) ==> forall fid string :: fid in r.followers ==> r.followers[fid].nextIndex <= Llast + 1
 //@   loop range r.configuration.Members invariant [nextIndex] old(forall fid string :: fid in r.followers ==> r.followers[fid].nextIndex <= Llast + 1) ==> forall fid string :: fid in r.followers ==> r.followers[fid].nextIndex <= Llast + 1
 //@   loop range next.Members invariant [nextIndex] old(forall fid string :: fid in r.followers ==> r.followers[fid].nextIndex <= Llast + 1) ==> forall fid string :: fid in r.followers ==> r.followers[fid].nextIndex <= Llast + 1
@@ -639,7 +640,7 @@ package raft
 //@   let X = request.LastIncludedIndex
 //@   let T = request.LastIncludedTerm
 //@   assume [A-ES] request.Term == r.currentTerm ==> r.state != Leader
-//@   ensures [IS.shutdown] old(r.state) == Shutdown ==> err != nil && Llast == old(Llast) && Lfirst == old(Lfirst) && r.commitIndex == old(r.commitIndex) && r.lastApplied == old(r.lastApplied) && r.currentTerm == old(r.currentTerm) && r.votedFor == old(r.votedFor)
+//@   ensures [IS.shutdown] err != nil ==> Llast == old(Llast) && Lfirst == old(Lfirst) && r.commitIndex == old(r.commitIndex) && r.lastApplied == old(r.lastApplied) && r.currentTerm == old(r.currentTerm) && r.votedFor == old(r.votedFor)
 //@   ensures [IS.stale-term] err == nil && request.Term < entry(r.currentTerm) && old(r.state) != Shutdown ==> response.Term >= request.Term
 //@   at call r.snapshotStorage.NewSnapshotFile assert [IS.something-new] X > r.lastIncludedIndex && X > r.lastApplied && request.Term >= r.currentTerm
 //@   at call io.Copy assert [IS.chunk-identity] sfIndex[r.snapshot] == X && sfTerm[r.snapshot] == T
